@@ -151,18 +151,20 @@ func checkC19(c *Ctx, r *Report) {
 	stVerifyBearer := constIntObj(c, hsP, "peerIDAuthServerStateVerifyBearer")
 
 	// `nowFn().After(CreatedTime.Add(ttl))` with ttl satisfying m
-	afterTTL := func(ttl func(ssa.Value) bool) func(ssa.Value) bool {
-		return func(v ssa.Value) bool {
-			ci := isResultOfCall(v, 0, "(time.Time).After")
-			if ci == nil {
-				return false
-			}
-			add := isResultOfCall(ci.Common().Args[1], 0, "(time.Time).Add")
+	// not after created+ttl, however spelled: A = the current time (a time.Time call result other than the Add), B = CreatedTime.Add(ttl)
+	notAfterTTL := func(ttl func(ssa.Value) bool) EdgePred {
+		isDeadline := func(v ssa.Value) bool {
+			add := isResultOfCall(v, 0, "(time.Time).Add")
 			if add == nil {
 				return false
 			}
 			return isLoadOfField(opT+".CreatedTime")(strip2(add.Common().Args[0])) && ttl(strip2(add.Common().Args[1]))
 		}
+		isNowV := func(v ssa.Value) bool {
+			call, ok := v.(*ssa.Call)
+			return ok && !isDeadline(v) && call.Type().String() == "time.Time" && len(call.Call.Args) == 0
+		}
+		return edgeExcl(isNowV, isDeadline, ordGT)
 	}
 
 	// ---- R1 ---------------------------------------------------------------
@@ -179,7 +181,7 @@ func checkC19(c *Ctx, r *Report) {
 				r1.guard(run, "return nil [arm verify-challenge]", rets, name, e, as)
 			}
 			g("opaque.Unmarshal(hmac)==nil", edgeNil(isCallResult(0, unmK), true))
-			g("!now.After(created+challengeTTL)", edgeBool(afterTTL(func(v ssa.Value) bool { n, ok := constInt(v); return ok && n == chalTTL && chalTTL == 5*60*1e9 }), false))
+			g("!now.After(created+challengeTTL)", notAfterTTL(func(v ssa.Value) bool { n, ok := constInt(v); return ok && n == chalTTL && chalTTL == 5*60*1e9 }))
 			g("!opaque.IsToken", edgeBool(isLoadOfField(opT+".IsToken"), false))
 			g("Hostname == opaque.Hostname", eqEdge(isLoadOfField(srvT+".Hostname"), isLoadOfField(opT+".Hostname"), true))
 			g("verifySig(pubKey)==nil", edgeNil(isCallResult(0, vsK), true))
@@ -231,7 +233,7 @@ func checkC19(c *Ctx, r *Report) {
 			}
 			g("opaque.Unmarshal(hmac)==nil", edgeNil(isCallResult(0, unmK), true))
 			g("opaque.IsToken", edgeBool(isLoadOfField(opT+".IsToken"), true))
-			g("!now.After(created+TokenTTL)", edgeBool(afterTTL(isLoadOfField(srvT+".TokenTTL")), false))
+			g("!now.After(created+TokenTTL)", notAfterTTL(isLoadOfField(srvT+".TokenTTL")))
 		}
 	}
 	r1.onlyIn("write "+opT+".PeerID", fieldWritePred(opT+".PeerID"), c.FnsOfPkg(hsP), runK)
